@@ -14,63 +14,63 @@ R13 = 'semantic values are ghost identifiers (R13): std::variant/optional/tuple,
 OWNED = {r'stack/capacity:': ['C06', 'C12'], r'stack/capacity-shape:': ['C06', 'C12', 'C07']}
 
 L_KNUTH = "Knuth's LR(1) theorem (closed states + goto kernels + table read off the items + driver executing the table => accepts exactly L(G)) is not mechanised; analyze_states (the work-list loop), closure, transitions and the four FIRST/nullable functions are each under contract with their callees replaced by abstract contracts over ghost tables, i.e. each does the textbook step given what the others return - that the memoised recursion reaches the least fixed point is not claimed (finding D4)"
-GLUE = 'the pack-expansion glue that fills grammar_info from the DSL objects (analyze_terms/nterms/rule, create_lexer, init_reductors: R18) is outside the extraction'
+GLUE = 'grammar_info glue: analyze_term / analyze_nterm / analyze_eof / analyze_error_recovery_token / make_symbol / analyze_rule are under contract (unit glue) against abstract DSL objects whose accessors are under contract in units terms, rules, values; the pack expansions that call them once per term / nonterminal / rule (analyze_terms, analyze_nterms, analyze_rules), create_lexer and init_reductors (R18) are outside the extraction'
 
 PROPS = {
-    'C01': dict(units=['state_analyzer', 'state_analyzer@small', 'driver', 'stdex'],
+    'C01': dict(units=['state_analyzer', 'state_analyzer@small', 'driver', 'stdex', 'glue'],
                 claim='local step contracts of the LR(1) construction that are within reach: item index encode/decode round trip, memo-key injectivity of the FIRST/nullable slice memos, rule sorting (ordered + permutation) and per-nonterminal slices (partition), add_situation (item set, item list, bucket by symbol after the dot, kernel), bitset primitives; and the driver executing the table entry of (top state, presented term)',
                 assumptions=[L_KNUTH, GLUE, L_PATH, TABLE_WF]),
     'C03': dict(units=['regex_decode', 'dfa'],
                 claim='the specified links of the chain: decoding of characters/escapes/hex and ranges (unsigned, inclusive), the automaton run loop (longest prefix, slot-0 winner, stops only at end or missing transition), expr::match = whole-string recognition of term 0 without forming a pointer from the failure sentinel',
                 assumptions=['language equality over unbounded strings is not expressible as a contract; the composition operators (cat/alt/star/plus/opt/rep by in-place merging) are not verified and are unsound (finding D9)',
                              'well-formedness of the library-built automata (every transition none or < size) rests on the builder, not verified: [L-wf]', 'string_view_to_subset and the dfa_builder primitives are not under contract']),
-    'C05': dict(units=['state_analyzer'],
+    'C05': dict(units=['state_analyzer', 'terms', 'rules', 'glue'],
                 claim="solve_conflict decides reduce iff rule precedence > term precedence or equal with the rule left-associative (from the statement); the rule's last term is its right-most terminal; rule precedence = explicit [n] if non-zero else the last term's else 0; rule associativity = the last term's",
                 assumptions=['conflict detection inside transitions() (which entry gets the verdict, has_sr_conflict) is not under contract', L_KNUTH, GLUE]),
-    'C07': dict(units=['dfa', 'driver'], static=[SF.buffers_static],
+    'C07': dict(units=['dfa', 'driver', 'buffers'], static=[SF.buffers_static],
                 claim='absence of undefined behaviour on the failure paths the property anchors (lexical error in get_current_term, non-matching regex::expr::match): the exact condition under which a constant evaluator must accept the evaluation; the parse path is one lowered text for all buffer kinds (R7)',
                 assumptions=["that g++'s and clang's constant evaluators and the compiled code compute the same function of a UB-free evaluation is the language standard (trusted)",
-                             'buffer adaptors (cstring_buffer::iterator operators, the three get_view) are pinned as one-line pattern facts, not verified as functions', LEXER]),
-    'C11': dict(units=['diag', 'state_analyzer', 'state_analyzer@small'],
+                             'buffer adaptors: cstring_buffer::iterator operators, begin/end and get_view of the three buffers are under contract (unit buffers) with std::string / std::string_view members read as (pointer, length) pairs and their iterators as pointers (standard-library meaning, trusted); the cstring_buffer constructor (pack-expanded copy_array) is a pattern fact only', LEXER]),
+    'C11': dict(units=['diag', 'state_analyzer', 'state_analyzer@small', 'glue'],
                 claim='write_state_diag_str prints for every term column exactly one action line of the kind the table entry has, with the rule number / target state of that entry (including the losing reduction of a resolved S/R conflict); the RULES list numbers rules as the action lines do; all name/rule/symbol indices in bounds; add_situation files an item under the symbol after its dot',
                 assumptions=['that the item sets and conflict flags in the table are the true LR(1) ones is C01 (transitions/closure not under contract)', 'text formatting is lowered to events (R10)', 'the DFA dump is not verified']),
-    'C12': dict(units=['dfa', 'driver', 'stdex', 'state_analyzer'],
+    'C12': dict(units=['dfa', 'driver', 'stdex', 'state_analyzer', 'cvec_iter'],
                 claim='dfa_size_analyzer arithmetic (prim/add/rep: {0} keeps the slice, {n} adds n-1 copies) under an explicit no-wrap precondition; cvector preconditions (size < N) as call-site obligations; stack/capacity of the driver; add_situation capacity preconditions',
                 assumptions=['analyser vs builder lock-step over the same parse is not mechanised; the builder (rep/cat/alt/...) is not under contract', 'sufficiency of the default table caps is a counting (pigeonhole) argument, not mechanised',
                              'nothing in the header establishes the no-wrap precondition of dfa_size_analyzer::rep (finding D12)']),
-    'C02': dict(units=['driver', 'stdex', 'dfa'],
+    'C02': dict(units=['driver', 'stdex', 'dfa', 'terms', 'rules', 'values', 'glue', 'reductors', 'cvec_iter'],
                 claim='driver-level half of bottom-up evaluation: which rule functor is invoked, with which stack slice, in which order, once; shift applies the term functor of the shifted term to the pending lexeme; success returns the bottom value',
                 assumptions=[L_PATH, L_IDS, TABLE_WF, R13, 'that the popped slice is the handle of the unique derivation is the LR(1) theorem (C01), not mechanised']),
-    'C04': dict(units=['driver', 'utils', 'dfa'], static=[SF.buffers_static],
+    'C04': dict(units=['driver', 'utils', 'dfa', 'buffers', 'terms', 'values'], static=[SF.buffers_static],
                 claim='whitespace skipping is exactly the documented sets; the lexer is asked once at the skipped position with the whole rest of the buffer; the lexeme is exactly [current_it, current_it+len); a failure result yields one Unexpected character report',
                 assumptions=[LEXER, 'longest match/first-listed priority of the automaton itself: unit dfa (dfa_match/run); the union automaton built by merging is not verified (finding D10)']),
-    'C06': dict(units=['driver', 'stdex', 'utils', 'regex_lexer', 'dfa'], all=['driver', 'stdex'],
+    'C06': dict(units=['driver', 'stdex', 'utils', 'regex_lexer', 'dfa', 'values', 'cvec_iter'], all=['driver', 'stdex'],
                 claim='every CBMC safety check (bounds, pointer validity/overflow, signed/unsigned overflow, division) plus the logical bounds woven by R9/R7 on every parse-path function under its precondition; recovery pops and input discarding strictly progress',
                 assumptions=[L_PATH, L_IDS, TABLE_WF, LEXER, 'termination of a run of reductions that consume nothing (no reduce cycle in a conflict-free table) is not mechanised',
                              'std::vector / std::string stacks and buffers are trusted; the proof is for the cvector stacks']),
-    'C08': dict(units=['driver', 'state_analyzer'],
+    'C08': dict(units=['driver', 'state_analyzer', 'glue'],
                 claim='step relation of the driver loop written from the documented recovery algorithm: enter (one message, nothing discarded), pop (one state and its value), shift of the error symbol, input discarding, exits',
                 assumptions=[L_PATH, L_IDS, TABLE_WF, LEXER]),
-    'C09': dict(units=['driver'],
+    'C09': dict(units=['driver', 'terms', 'values', 'glue'],
                 claim='without error rules and not verbose: no event before the failure, exactly one (Unexpected character | Syntax error) on failure with position and payload, none on success',
                 assumptions=[L_PATH, TABLE_WF, LEXER, 'that the term reported is the first that cannot continue a valid prefix is the immediate-error-detection property of canonical LR(1) tables (C01), not mechanised']),
-    'C10': dict(units=['driver'],
+    'C10': dict(units=['driver', 'values'],
                 claim="source_point::update follows the statement's rule byte by byte; every advance of the parse position is paired with an update over exactly that range; values and messages carry the source point of the pending term's first byte",
                 assumptions=['line/column counters below 2^30 (cannot be reached with buffers <= 4096 bytes; the counters are 32-bit)', LEXER]),
-    'C14': dict(units=['driver', 'stdex'],
+    'C14': dict(units=['driver', 'stdex', 'reductors', 'cvec_iter'],
                 claim='driver-level linearity of value identifiers: ids on the stack are pairwise distinct, reduce erases exactly the slice it passed, pop_stacks discards, success returns the bottom; nothing reads an erased slot',
                 assumptions=[L_PATH, L_IDS, R13, 'rvalue passing, move-only types, moved-from reads inside reduce_value_impl and exactly-once destruction are C++ object semantics outside the verified text']),
     'C15': dict(units=['driver'], all=['driver'], static=[SF.c15_static],
                 claim='frame: no parse-path function writes parse_table, gi, state_count, names or any other parser member (assigns clauses contain only parse-local state); static scan: no mutable/const_cast/function-local static, parse members const',
                 assumptions=['data-race freedom follows from read-only sharing; no schedule is explored', R13]),
-    'C16': dict(units=['driver'], all=['driver'], static=[SF.c16_static],
+    'C16': dict(units=['driver', 'values', 'entry'], all=['driver'], static=[SF.c16_static],
                 claim='every contract states the same state change for verbose on and off (verbose only adds events); trace payloads (Shift to, Reduced using rule, Go to, Recognized) equal the action performed',
                 assumptions=['stream type: both no_stream and std::ostream lower to the ghost event sink (R10); text formatting is not verified', LEXER]),
-    'C17': dict(units=['utils', 'regex_lexer'],
+    'C17': dict(units=['utils', 'regex_lexer', 'terms', 'values', 'glue'],
                 claim='regex_lexer::match and its helpers read only the pattern array (terminator included) and refuse raw non-printable bytes, dangling backslashes and unterminated sets; find_str never returns a wrong or uninitialized index',
                 assumptions=['patterns are NUL-terminated arrays (cstring_buffer keeps the terminator at end())',
                              'grammar-level rejections (unbalanced group, leading quantifier, empty alternative, {}) rest on C01 applied to the regex grammar: not mechanised']),
-    'C18': dict(units=['driver', 'regex_lexer'],
+    'C18': dict(units=['driver', 'regex_lexer', 'terms', 'values'],
                 claim='get_current_term under the weakest custom-lexer contract: asked once per needed term after the same whitespace skipping, index used unchanged, exactly len bytes pending, default result => Unexpected character',
-                assumptions=[LEXER, 'custom_term value typing is C++ template machinery outside the verified text']),
+                assumptions=[LEXER, 'custom_term constructor and accessors are under contract (unit terms); its value typing (internal_value_type, value_type_t) is C++ template machinery outside the verified text']),
 }
